@@ -426,21 +426,28 @@ theorem convBy_eq (W : World N V T) (t : Option T) (v : V) :
   | none => rfl
   | some t => cases W.conv t v <;> rfl
 
-theorem parseAddition_eq (W : World N V T) (s : Sig N V T) (k : N) (v : V) (hk : k ∉ s.excludeVars W) :
-    parseAddition W s k v =
+theorem effAddition_vk (s : Sig N V T) (o : Opts) (n : N) (t : Option T) (h : s.vk = some (n, t)) :
+    effAddition s o = .allow t := by
+  unfold effAddition; rw [h]
+
+theorem parseAddition_eq (W : World N V T) (s : Sig N V T) (o : Opts) (k : N) (v : V) (hk : k ∉ s.excludeVars W) :
+    parseAddition W s o k v =
       match s.vk with
-      | none => .ok none
+      | none => (match effAddition s o with
+        | .drop => .ok none
+        | .deny => .error .perr
+        | .allow t => (convBy W t v).map some)
       | some (_, t) => match Spec.convO W t v with
         | some x => .ok (some x)
         | none => .error .perr := by
   unfold parseAddition
   have : (s.excludeVars W).contains k = false := by simpa using hk
   simp only [this]
-  cases s.vk with
+  cases hvk : s.vk with
   | none => rfl
   | some nt =>
     obtain ⟨n, t⟩ := nt
-    simp only [convBy_eq]
+    simp only [effAddition_vk s o n t hvk, convBy_eq]
     cases Spec.convO W t v <;> rfl
 
 theorem err_eq (e : Err) : e = .perr := by cases e; rfl
@@ -607,7 +614,7 @@ theorem dfApply_eq (rest : List (N × V)) :
       obtain ⟨hnk, hnt, hann⟩ := key_extra W hW s wf k hk hr
       rw [dfApply]
       simp only
-      rw [parseAddition_eq W s k v hk]
+      rw [parseAddition_eq W s o k v hk]
       simp only [Spec.normalise, List.map_cons, Spec.convKw, hnk, hann]
       cases hvk : s.vk with
       | none =>
@@ -1486,7 +1493,7 @@ theorem ffAddition_ok (used : List N) (rest : List (N × V)) :
         ∧ Spec.annOfKey s e.1 = (match s.vk with | some (_, t) => t | none => none)) →
     s.vk.isSome = true →
     Spec.convKw W s (Spec.normalise W s rest) = some c' →
-    ffAddition W s used rest a = .ok (dictUpdate a (c'.filter (fun e => !isTarget s e))) := by
+    ffAddition W s o used rest a = .ok (dictUpdate a (c'.filter (fun e => !isTarget s e))) := by
   induction rest with
   | nil =>
     intro a c' _ _ _ _ hc
@@ -1512,7 +1519,7 @@ theorem ffAddition_ok (used : List N) (rest : List (N × V)) :
       | false =>
         obtain ⟨hu, hnk, hann⟩ := hN (k, v) (by simp) ht
         simp only [hu, Bool.false_eq_true, if_false]
-        rw [parseAddition_eq W s k v (h1 (k, v) (by simp))]
+        rw [parseAddition_eq W s o k v (h1 (k, v) (by simp))]
         rw [hnk, hann] at hv
         cases hvk' : s.vk with
         | none => rw [hvk'] at hvk; cases hvk
@@ -1590,11 +1597,26 @@ theorem ffLoop_error (data' cf : List (N × V)) (f : Param N V T) (v : V) (hex :
           · exact ih hf' _ _
 
 omit hW wf in
+/-- when the field loop consumed every keyword, the addition pass adds nothing -/
+theorem ffAddition_allused (used : List N) (rest : List (N × V)) (a : List (N × V))
+    (h : ∀ e ∈ rest, used.contains (ffKey W (s.fields W) e.1) = true) :
+    ffAddition W s o used rest a = .ok a := by
+  induction rest with
+  | nil => rfl
+  | cons e rest ih =>
+    obtain ⟨k, v⟩ := e
+    unfold ffAddition
+    have := h (k, v) (by simp)
+    simp only at this
+    simp only [this, if_true]
+    exact ih (fun e he => h e (by simp [he]))
+
+omit hW wf in
 /-- an extra key that the field loop did not consume and whose value does not convert makes the addition pass fail -/
 theorem ffAddition_error (used : List N) (e : N × V)
-    (hu : used.contains (ffKey W (s.fields W) e.1) = false) (hp : parseAddition W s e.1 e.2 = .error .perr)
+    (hu : used.contains (ffKey W (s.fields W) e.1) = false) (hp : parseAddition W s o e.1 e.2 = .error .perr)
     (rest : List (N × V)) (he : e ∈ rest) :
-    ∀ (a : List (N × V)), ffAddition W s used rest a = .error .perr := by
+    ∀ (a : List (N × V)), ffAddition W s o used rest a = .error .perr := by
   induction rest with
   | nil => cases he
   | cons x rest ih =>
@@ -1690,8 +1712,8 @@ theorem fieldFirst_obs (kw : List (N × V))
       | some nt =>
         obtain ⟨n, t⟩ := nt
         simp only [hvk] at hfail
-        have hp : parseAddition W s e.1 e.2 = .error .perr := by
-          rw [parseAddition_eq W s e.1 e.2 (h1 e he), hvk]; simp only [hfail]
+        have hp : parseAddition W s o e.1 e.2 = .error .perr := by
+          rw [parseAddition_eq W s o e.1 e.2 (h1 e he), hvk]; simp only [hfail]
         unfold fieldFirst
         cases hloop : ffLoop W o excl (ffPrep W (s.fields W) kw).1 (ffPrep W (s.fields W) kw).2 (s.fields W) [] [] with
         | error e' => simp only [err_eq e']
@@ -1706,7 +1728,7 @@ theorem fieldFirst_obs (kw : List (N × V))
               rcases ffLoop_used W o excl _ _ _ _ _ _ _ hloop _ hx with h | ⟨g, hg, hex, hmem⟩
               · cases h
               · exact hextra e he hnk hnt g hg hex hmem
-          simp only [hvk, Option.isSome_some, if_true, ffAddition_error W s u e hu hp kw he []]
+          simp only [effAddition_vk s o n t hvk, ffAddition_error W s o u e hu hp kw he []]
   | some c =>
     have hkeys : c.map (·.1) = (Spec.normalise W s kw).map (·.1) := convKw_keys W s _ c hc
     have hcn : (c.map (·.1)).Nodup := hkeys ▸ hn
@@ -1772,12 +1794,32 @@ theorem fieldFirst_obs (kw : List (N × V))
       simp only [isTarget, heq, hAmem e he] at this
       cases this
     -- the result
+    -- a keyword that names a field is looked up under a spelling the field loop marked as used
+    have hTused : ∀ e ∈ kw, s.kwTarget (Spec.normKey W s e.1) = true →
+        U.contains (ffKey W (s.fields W) e.1) = true := by
+      intro e he ht
+      rcases key_cases' W hW s wf excl kw h1 h3 e he with ⟨f, hf, hkw, hnk, hm, hex, _⟩ | ⟨hnk, hnt, _⟩
+      · have hmemn : (f.name, e.2) ∈ Spec.normalise W s kw := by
+          simp only [Spec.normalise, List.mem_map]; exact ⟨e, he, by rw [hnk]⟩
+        have hcs : (c.lookup f.name).isSome = true := by
+          rw [lookup_isSome_iff, hkeys]; exact List.mem_map_of_mem hmemn
+        have : ffKey W (s.fields W) e.1 ∈ U := by
+          rw [hU]
+          refine List.mem_flatMap.mpr ⟨f, hf, ?_⟩
+          have hcn' : (c.lookup f.name).isNone = false := by
+            cases hh : c.lookup f.name with
+            | none => rw [hh] at hcs; cases hcs
+            | some _ => rfl
+          simp only [hex, hcn', Bool.or_self, Bool.false_eq_true, if_false]
+          exact (ffKey_mem_iff W hW s wf f hf e.1).mpr hm
+        simpa using this
+      · rw [hnk, hnt] at ht; cases ht
     have hres : fieldFirst W s o excl kw = .ok (E ++ A) := by
       unfold fieldFirst
       simp only [hloop]
       cases hvk : s.vk with
       | none =>
-        have : A = [] := by
+        have hAnil : A = [] := by
           rw [hA, List.filter_eq_nil_iff]
           intro e' he'
           have hk : e'.1 ∈ c.map (·.1) := List.mem_map_of_mem he'
@@ -1786,30 +1828,20 @@ theorem fieldFirst_obs (kw : List (N × V))
           obtain ⟨e, he, heq⟩ := hk
           have := h5 hvk e he
           simp [isTarget, ← heq, this]
-        simp [this]
+        -- without **kwargs every keyword names a field, so an addition pass (if the options ask for one) finds nothing
+        have hall : ffAddition W s o U kw [] = .ok [] :=
+          ffAddition_allused W s o U kw [] (fun e he => hTused e he (h5 hvk e he))
+        cases hea : effAddition s o with
+        | drop => simp [hAnil]
+        | deny => simp [hall, hAnil, dictUpdate]
+        | allow t => simp [hall, hAnil, dictUpdate]
       | some nt =>
-        simp only [Option.isSome_some, if_true]
-        rw [ffAddition_ok W hW s wf U kw [] c h1 ?_ ?_ (by simp [hvk]) hc]
+        obtain ⟨n, t⟩ := nt
+        simp only [effAddition_vk s o n t hvk]
+        rw [ffAddition_ok W hW s wf o U kw [] c h1 hTused ?_ (by simp [hvk]) hc]
         · simp only
           rw [← hA, dictUpdate_fresh [] A hAn (by intro e _; rfl), List.nil_append,
             dictUpdate_fresh E A hAn hAfresh]
-        · intro e he ht
-          rcases key_cases' W hW s wf excl kw h1 h3 e he with ⟨f, hf, hkw, hnk, hm, hex, _⟩ | ⟨hnk, hnt, _⟩
-          · have hmemn : (f.name, e.2) ∈ Spec.normalise W s kw := by
-              simp only [Spec.normalise, List.mem_map]; exact ⟨e, he, by rw [hnk]⟩
-            have hcs : (c.lookup f.name).isSome = true := by
-              rw [lookup_isSome_iff, hkeys]; exact List.mem_map_of_mem hmemn
-            have : ffKey W (s.fields W) e.1 ∈ U := by
-              rw [hU]
-              refine List.mem_flatMap.mpr ⟨f, hf, ?_⟩
-              have hcn' : (c.lookup f.name).isNone = false := by
-                cases hh : c.lookup f.name with
-                | none => rw [hh] at hcs; cases hcs
-                | some _ => rfl
-              simp only [hex, hcn', Bool.or_self, Bool.false_eq_true, if_false]
-              exact (ffKey_mem_iff W hW s wf f hf e.1).mpr hm
-            simpa using this
-          · rw [hnk, hnt] at ht; cases ht
         · intro e he ht
           rcases key_cases' W hW s wf excl kw h1 h3 e he with ⟨f, hf, hkw, hnk, hm, hex, htt⟩ | ⟨hnk, hnt, hann⟩
           · rw [hnk, htt] at ht; cases ht
